@@ -1202,6 +1202,13 @@ func genHybrid(c15 bool) func(t *rapid.T) hyCase {
 				return []hyStep{{Op: "set", K: k, TTL: rapid.SampledFrom([]int64{0, 0, 50e9}).Draw(t, "pttl")}, {Op: "overflow", N: c.MaxSize + 2}, {Op: "settle"},
 					{Op: "slowprom", K: k, N: rapid.IntRange(0, 1).Draw(t, "pwrite")}}
 			}
+			if len(c.FailDel) > 0 && rapid.IntRange(0, 3).Draw(t, "failDelScenario") == 0 {
+				// a key whose only copy is in the secondary tier is deleted while secondary Deletes fail by
+				// script, then read (seeded C14g: the failure swallowed, the Delete reported as completed)
+				k := rapid.IntRange(0, c.Keys-1).Draw(t, "fk")
+				return []hyStep{{Op: "set", K: k, TTL: rapid.SampledFrom([]int64{0, 0, 5000e9}).Draw(t, "fttl")}, {Op: "overflow", N: c.MaxSize + 2}, {Op: "settle"},
+					{Op: "del", K: k}, {Op: "get", K: k}}
+			}
 			if !c.Loading && c.Prob == 1 && len(c.FailSet) == 0 && len(c.FailDel) == 0 && rapid.IntRange(0, 11).Draw(t, "expScenario") == 0 {
 				// a TTL'd key is demoted, its deadline passes, and somebody writes it while the Get that finds
 				// the expired copy is removing it from the secondary tier
